@@ -418,27 +418,43 @@ func (ex *gateExec) checkAll() (string, string) {
 func layerGate(h *harness.H) {
 	h.AddRule("gate: PRNG histories of 8-30 open/set-authority/release ops (2-5 subjects, 1-3 disjoint regions, exclusive+shared); distinct = normalised op list; non-trivial = >=1 hand-off between two different subjects")
 	n := h.N(4000, 200000)
-	for c := 0; c < n; c++ {
-		if h.Skip("gate", c) {
-			continue
+	type out struct {
+		gc        gateCase
+		sig, what string
+		ex        *gateExec
+	}
+	const chunk = 2000
+	for base := 0; base < n; base += chunk {
+		m := min(chunk, n-base)
+		results := parallel(m, 12, func(i int) any {
+			c := base + i
+			if h.Skip("gate", c) {
+				return nil
+			}
+			gc := genGateCase(h.Rand("gate", c))
+			sig, what, ex := runGateCase(gc)
+			return out{gc, sig, what, ex}
+		})
+		for i, r := range results {
+			if r == nil {
+				continue
+			}
+			c, o := base+i, r.(out)
+			h.Eval()
+			if o.sig != "" {
+				h.Violation("gate", c, o.sig, o.what, minimiseGate(o.gc, o.sig))
+				continue
+			}
+			h.Count("gate_steps", len(o.gc.Ops))
+			h.Count("gate_handoffs", o.ex.handoffs)
+			for s := range o.ex.shapes {
+				h.Seen("gate_region_states", s)
+			}
+			if o.ex.handoffs > 0 {
+				h.Distinct("gate|" + fmt.Sprint(o.gc))
+			}
+			h.Sample(map[string]any{"layer": "gate", "case": c, "shared": o.gc.Shared, "ops": fmt.Sprint(o.gc.Ops), "handoffs": o.ex.handoffs})
 		}
-		gc := genGateCase(h.Rand("gate", c))
-		h.Eval()
-		sig, what, ex := runGateCase(gc)
-		if sig != "" {
-			min := minimiseGate(gc, sig)
-			h.Violation("gate", c, sig, what, min)
-			continue
-		}
-		h.Count("gate_steps", len(gc.Ops))
-		h.Count("gate_handoffs", ex.handoffs)
-		for s := range ex.shapes {
-			h.Seen("gate_region_states", s)
-		}
-		if ex.handoffs > 0 {
-			h.Distinct("gate|" + fmt.Sprint(gc))
-		}
-		h.Sample(map[string]any{"layer": "gate", "case": c, "shared": gc.Shared, "ops": fmt.Sprint(gc.Ops), "handoffs": ex.handoffs})
 	}
 }
 
